@@ -333,7 +333,10 @@ def components(ctx):
              "string in the line buffer: first line, later line, file = one NUL, behind a complete last line, alone between "
              "two newlines, behind an over-long line); argument vectors over 27 option-like tokens; "
              "non-trivial = at least 5 ops",
-        classify=classify, env={"HPARSERS_TMP": ctx.tmp})]
+        classify=classify, env={"HPARSERS_TMP": ctx.tmp},
+        # black-box fallback (h_parsers.c -DHC_BLACKBOX): json.c compiled separately, the ops that call its static skip_value
+        # are stripped from the cases (every op of this harness is an independent call)
+        bb_ok=True, bb_srcs=["util/json.c"], bb_strip_ops=("skipv", "skipvv"))]
 
 
 def check(ctx):
